@@ -59,7 +59,7 @@ ASSUMPTIONS = [
     "below Python's recursion limit (generated depth <= 60)",
     "domain of the property oracle = conforming structures: keys strictly ascending in order, first page-label key 0, "
     "St >= 1, every non-root node carries Limits bounding its keys with siblings separated, destinations are non-empty "
-    "arrays/dictionaries, roman values >= 1, text strings use defined PDFDocEncoding codes or well-formed UTF-16BE",
+    "arrays/dictionaries, roman values in 0 < v < 1000000, text strings use defined PDFDocEncoding codes or well-formed UTF-16BE",
     "PDFDocEncoding code 0x16 maps to U+0017 as printed in ISO 32000-1 Table D.2",
     "settings.STRICT False (default) for everything; label extraction additionally under settings.STRICT = True",
 ]
@@ -67,19 +67,21 @@ STATEMENT_STATUS = {
     "pdfdoc_table_total": "proved (regenerated table has 256 entries)",
     "pdfdoc_table_spec": "proved: every defined code of ISO 32000-1 Table D.2 (kernel sweep over 256 bytes)",
     "decode_text_spec": "proved for all strings in the domain (well-formed UTF-16BE with BOM, defined PDFDocEncoding codes)",
-    "roman_correct_all": "proved for EVERY n >= 1 (low three digits: kernel sweep against the regenerated ROMAN_* tables; "
-                         "thousands: any number of m, 4000 -> mmmm) - full statement since the round-6 fix",
+    "roman_correct_all": "proved for EVERY 0 < n < ROMAN_MAX (bound translated from utils.py; low three digits: kernel sweep against "
+                         "the regenerated ROMAN_* tables; thousands: any number of m, 4000 -> mmmm) - full statement since the round-6 fixes",
+    "roman_max_spec": "proved: the translated ROMAN_MAX is the bound of the specification's domain (one million)",
+    "roman_length_bound": "proved: inside the asserted range a numeral has fewer than 1000 leading m",
     "roman_correct": "proved (the n < 4000 instance of roman_correct_all, kept for its users)",
     "roman_value": "proved (sanity of the specification: numeral reads back as n)",
-    "roman_outside": "proved (AssertionError for n <= 0 is modelled; no upper bound since the round-6 fix)",
+    "roman_outside": "proved (AssertionError for n <= 0 or n >= ROMAN_MAX is modelled: nothing else happens there)",
     "alpha_statement": "full statement for styles A/a; proved FALSE on the pinned code: alpha_cex (28 -> 'ab', ISO 'bb'); "
                        "open finding alpha-repeat",
     "alpha_partial": "partial: values 1..26 only",
     "roman_body_translated": "proved for every state: one pass of the TRANSLATED while body of format_int_roman = the hand "
                              "model's step (IndexError included)",
     "roman_translated": "proved for every integer: format_int_roman assembled from the translated assert/test/body/tail = hand model",
-    "roman_translated_correct": "proved for EVERY n >= 1: the translated code writes the subtractive-notation numeral",
-    "roman_translated_outside": "proved: the translated assert raises for n <= 0",
+    "roman_translated_correct": "proved for EVERY 0 < n < ROMAN_MAX: the translated code writes the subtractive-notation numeral",
+    "roman_translated_outside": "proved: the translated assert raises for n <= 0 and n >= ROMAN_MAX",
     "format_page_label_translated": "proved for every value and style: the TRANSLATED if/elif chain of _format_page_label over the "
                                     "translated numeral functions = hand model",
     "labels_range_translated": "proved: a non-final range of PageLabels.labels from the TRANSLATED St/P defaults, range_length and "
@@ -203,9 +205,13 @@ _ROMAN = [(1000, "m"), (900, "cm"), (500, "d"), (400, "cd"), (100, "c"), (90, "x
           (10, "x"), (9, "ix"), (5, "v"), (4, "iv"), (1, "i")]
 
 
+ROMAN_MAX_SPEC = 1000000
+
+
 def spec_roman(n: int) -> Optional[str]:
-    """Greedy subtractive notation for every n >= 1 (no numeral above m: 4000 -> mmmm)."""
-    if n < 1:
+    """Greedy subtractive notation for every 0 < n < 1000000 (no numeral above m: 4000 -> mmmm; the domain is
+    bounded because the numeral grows with the value - Spec.Labels.romanMax)."""
+    if not 0 < n < ROMAN_MAX_SPEC:
         return None
     out = []
     for v, s in _ROMAN:
@@ -1050,7 +1056,7 @@ def gen_label_dict(rng, wild: bool) -> Dict[str, Any]:
         if ld["St"] > top:
             ld["St"] = rng.randint(1, top)
     if wild and rng.random() < 0.2:
-        ld["St"] = rng.choice([0, -1, -5, 3999, 4000, 4001, 5000])
+        ld["St"] = rng.choice([0, -1, -5, 3999, 4000, 4001, 5000, 999999, 1000000])   # 10**12: see corpus (style r only; the ISO letters numeral of such a value has 4e10 characters)
     if wild and rng.random() < 0.03:
         ld = {"junk": True, "S": None, "P": None, "St": None}     # the value is not a dictionary
     ld["ind"] = rng.random() < 0.3
@@ -1868,8 +1874,14 @@ def run_formatters(ctx: C.Ctx, batch: Batch) -> None:
                            {"kind": "roman", "value": bad[0]}, bad[1], bad[2], {"component": "roman"}))
     # past 3999 (since the round-6 fix part of the domain: thousands = repeated m) and the assertion
     big = list(range(4000, 4000 + ctx.n(300, 3000))) + [4999, 5000, 9999, 10000, 12345, 39999, 40000] \
-        + [ctx.rng.randint(4000, 200000) for _ in range(ctx.n(200, 2000))]
-    for n in big + [0, -1, -4000]:
+        + [ctx.rng.randint(4000, 200000) for _ in range(ctx.n(200, 2000))] \
+        + [ROMAN_MAX_SPEC - 1, ROMAN_MAX_SPEC - 1000, ctx.rng.randint(200000, ROMAN_MAX_SPEC - 1)]
+    if getattr(U, "ROMAN_MAX", None) != ROMAN_MAX_SPEC:
+        ctx.fail(C.Failure("utils.ROMAN_MAX is not the bound of the specification's domain (one million)",
+                           {"kind": "roman", "value": ROMAN_MAX_SPEC - 1}, str(ROMAN_MAX_SPEC),
+                           str(getattr(U, "ROMAN_MAX", None)), {"component": "roman"}))
+    # outside the asserted range: AssertionError at once (an extreme /St must not build an unbounded numeral)
+    for n in big + [0, -1, -4000, ROMAN_MAX_SPEC, ROMAN_MAX_SPEC + 1, 10 ** 9, 10 ** 12, 2 ** 64, -10 ** 12]:
         try:
             got = U.format_int_roman(n)
         except Exception as e:  # noqa: BLE001
